@@ -180,13 +180,22 @@ func installMeshHook() {
 
 var meshPeerTimeout = 5 * time.Second
 
+var meshNameOverride = map[int]string{} // instance index -> peer name (default am<i>)
+
+func meshName(i int) string {
+	if n, ok := meshNameOverride[i]; ok {
+		return n
+	}
+	return fmt.Sprintf("am%d", i)
+}
+
 func meshOpts(i, n int, peers []string) fOpts {
 	fo := defaultFOpts()
 	fo.Cluster = func(o *Options) {
 		addr := fmt.Sprintf("127.0.0.1:%d", i+1)
 		o.ClusterBindAddr = addr
 		o.ClusterAdvertiseAddr = addr
-		o.ClusterPeerName = fmt.Sprintf("am%d", i)
+		o.ClusterPeerName = meshName(i)
 		o.Peers = peers
 		o.PeerTimeout = meshPeerTimeout
 		o.GossipInterval = 500 * time.Millisecond
@@ -217,7 +226,7 @@ func newMesh(t *testing.T, root, yaml string, n int) *mesh {
 func (m *mesh) start(i int, dir string) *meshInst {
 	env := newEnv(fIntegs1)
 	env.epoch = m.epoch
-	env.instance = fmt.Sprintf("am%d", i)
+	env.instance = meshName(i)
 	meshMu.Lock()
 	meshCur, meshIdx = m.net, i
 	meshMu.Unlock()
@@ -341,6 +350,8 @@ var c08Alphabet = []string{
 	"the receiver becomes unreachable from am0 and am1 (recoverable errors), still reachable from the last instance",
 	"restart am1 with its data directory; firing alerts are sent again to every instance",
 	"restart am1 with an empty data directory; firing alerts are sent again to every instance",
+	"am2 leaves for good and a fresh instance named aa (it sorts first) joins; firing alerts are sent again to every instance",
+	"fire C (a NEW group) on every live instance",
 }
 
 type c08Cfg struct {
@@ -349,6 +360,7 @@ type c08Cfg struct {
 	peerTimeout time.Duration // 0 = 5s
 	shortGI     bool          // group_interval 10s: the peer wait of later instances exceeds the un-extended flush timeout
 	restarts    bool          // restart events enabled
+	replace     bool          // member replacement and new-group events enabled (own small alphabet)
 	early       bool          // the history starts 1s after the processes (whole-cluster cold start): the first flush is held by the gossip settle stage
 }
 
@@ -366,6 +378,21 @@ receivers:
 
 
 func c08Run(t *testing.T, cfg c08Cfg, h []int) (res seqx.Result) {
+	if cfg.replace { // own small alphabet: fire A, advance 12s / 31s, replace am2 by aa, fire C
+		for _, e := range h {
+			if e != 0 && e != 4 && e != 5 && e != 15 && e != 16 {
+				res.Skip = true
+				return
+			}
+		}
+	} else {
+		for _, e := range h {
+			if e == 15 || e == 16 {
+				res.Skip = true
+				return
+			}
+		}
+	}
 	root, err := os.MkdirTemp(fTmpRoot, "mesh")
 	if err != nil {
 		panic(err)
@@ -378,6 +405,7 @@ func c08Run(t *testing.T, cfg c08Cfg, h []int) (res seqx.Result) {
 	}()
 	synctest.Test(t, func(t *testing.T) {
 		meshPeerTimeout = 5 * time.Second
+		meshNameOverride = map[int]string{}
 		yaml := fYAML1
 		if cfg.peerTimeout > 0 {
 			meshPeerTimeout = cfg.peerTimeout
@@ -467,6 +495,45 @@ func c08Run(t *testing.T, cfg c08Cfg, h []int) (res seqx.Result) {
 				}
 				faulty = true
 				unreachable = true
+			case 15:
+				// what a rolling restart does with the default (random) peer names: the member list keeps its size but
+				// the ranks of the survivors change
+				if !cfg.replace || cfg.n != 3 || len(m.inst) > 3 || m.inst[2].crashed {
+					res.Skip = true
+					break
+				}
+				old := m.inst[2]
+				old.f.stop()
+				old.peer.VerifShutdown()
+				m.retired = append(m.retired, old)
+				m.inst[2] = nil
+				meshNameOverride[3] = "aa"
+				m.start(3, filepath.Join(root, "aa"))
+				restarted = true
+				time.Sleep(time.Second)
+				gt.horizon = now() + time.Hour
+				for _, name := range []string{"A", "B", "C"} {
+					if a := gt.alerts[name]; a != nil && gt.firing(name).contains(now()) {
+						g := "1"
+						if name == "C" {
+							g = "2"
+						}
+						m.postAll(fPostAlert{Labels: map[string]string{"alertname": name, "g": g}, EndsAt: rfc(time.Now().Add(time.Hour))})
+						a.posts = append(a.posts, gtPost{at: now(), end: now() + time.Hour})
+					}
+				}
+			case 16:
+				if !cfg.replace {
+					res.Skip = true
+					break
+				}
+				m.postAll(fPostAlert{Labels: map[string]string{"alertname": "C", "g": "2"}, EndsAt: rfc(time.Now().Add(time.Hour))})
+				a := gt.alerts["C"]
+				if a == nil {
+					a = &gtAlert{name: "C", group: "2"}
+					gt.alerts["C"] = a
+				}
+				a.posts = append(a.posts, gtPost{at: now(), end: now() + time.Hour})
 			case 13, 14:
 				// not a fault in the sense of the no-duplicate clause: the network is healthy, the instance comes back
 				// through a clean shutdown and gets the cluster's state when it joins
@@ -627,6 +694,7 @@ func TestVerifC08(t *testing.T) {
 		{"mesh-2-faults", c08Cfg{n: 2, faults: true, restarts: true}, 3, 4},
 		{"mesh-1", c08Cfg{n: 1}, 2, 3},
 		{"mesh-3-cold-start", c08Cfg{n: 3, early: true}, 2, 3},
+		{"mesh-3-member-replaced", c08Cfg{n: 3, replace: true}, 4, 5},
 	}
 	for _, c := range cfgs {
 		if rp := rep.ReplaySpec(); rp != nil {
